@@ -15,6 +15,19 @@ def graphs():
     # methods of crate types called with method syntax are inlined by Engine A through inline_calls
     for caller, callee, _ in ogp.it.inline_calls:
         ga.setdefault(caller.replace('crate::', '', 1), set()).add(callee.replace('crate::', '', 1))
+    # a work list rewritten as a synthetic recursive function (engine_ogp.normalise_worklists) is part of the function it was cut out of
+    syn = {k.replace('crate::', '', 1): v.replace('crate::', '', 1) for k, v in ogp.crate.synthetic.items()}
+    if syn:
+        ga2 = {}
+        for a, bs in ga.items():
+            a2 = syn.get(a, a)
+            for b in bs:
+                b2 = syn.get(b, b)
+                if a2 == b2 and (a in syn or b in syn):
+                    continue
+                ga2.setdefault(a2, set()).add(b2)
+            ga2.setdefault(a2, set())
+        ga = ga2
     gb = {}
     for n, callees in mir.call_graph().items():
         p = mir.bodies[n].parent
